@@ -25,13 +25,15 @@ pub fn make_etag(req_body: &[u8], resp_body: &[u8], cup2key: &str, _kid: u64, ke
         format!("{}:{}", hex::encode(sig.to_der().as_bytes()), hex::encode(Sha256::digest(req)))
     };
     if authentic { return Some(sign(req_body, resp_body, cup2key, key)); }
-    match forgery % 6 {
+    match forgery {
         0 => None,                                                            // unsigned
         1 => { let mut r = resp_body.to_vec(); r.push(b' '); Some(sign(req_body, &r, cup2key, key)) }   // signed for another body
         2 => Some(sign(req_body, resp_body, cup2key, (key + 1) % 5)),        // wrong key
         3 => old.last().cloned().or(Some("00:00".into())),                    // replay of an earlier genuine ETag
         4 => Some(sign(req_body, resp_body, &format!("{}0", cup2key), key)),  // foreign nonce
-        _ => Some("not-an-etag".into()),
+        5 => Some("not-an-etag".into()),
+        // degenerate header values around the quoting / weak-validator syntax
+        f => Some(["\"", "W/\"", "W/", "\"\"", "W/\"\"", ":", "\":\"", "W", "\"a", "a\""][(f as usize - 6) % 10].to_string()),
     }
 }
 
